@@ -1,6 +1,7 @@
 package main
 
 import (
+	"sync/atomic"
 	"github.com/olive-io/bpmn/v2/pkg/tracing"
 	"fmt"
 	bpmn "github.com/olive-io/bpmn/v2"
@@ -32,12 +33,35 @@ func c14Defs(n int) (msgs []schema.MessageEventDefinition, sigs []schema.SignalE
 	return
 }
 
+var c14Rot uint64 // the non-matching symbol is realised by a different event every time
+
 func c14Event(n, i int) event.IEvent {
-	if i >= n { // non-matching
-		if i%2 == 0 {
+	if i >= n { // non-matching: another name, or a definition's name on an event of another kind
+		first, last := "d0", fmt.Sprintf("d%d", n-1) // d0 is a message definition when n >= 2, d<n-1> a signal definition
+		switch atomic.AddUint64(&c14Rot, 1) % 8 {
+		case 0:
 			return event.NewSignalEvent("nomatch")
+		case 1:
+			return event.NewMessageEvent("nomatch", nil)
+		case 2:
+			if n >= 2 {
+				return event.NewSignalEvent(first)
+			}
+			return event.NewSignalEvent("nomatch")
+		case 3:
+			return event.NewMessageEvent(last, nil)
+		case 4:
+			ev := event.MakeEscalationEvent(first)
+			return &ev
+		case 5:
+			ev := event.MakeErrorEvent(last)
+			return &ev
+		case 6:
+			ev := event.MakeEscalationEvent(last)
+			return &ev
+		default:
+			return event.MakeNoneEvent()
 		}
-		return event.NewMessageEvent("nomatch", nil)
 	}
 	name := fmt.Sprintf("d%d", i)
 	if i < n/2 {
